@@ -298,8 +298,7 @@ def _plain(s: str) -> bool:
               "(copying and walking under the tracer), so whole components are checked with marker strings in h_jsx_js")
 def h_jsx_strings(k: int, s: str) -> bool:
     """strings free of backslashes and line breaks are written as double-quoted literals denoting the original text"""
-    from htmltools._jsx import _render_react_js, _serialize_attr, _serialize_style_attr
-    want = '"' + _esc(s) + '"'
+XX
     if k == 0:
         return _render_react_js(s, 0, "\n") == want and _render_react_js(s, 2, "\n") == "    " + want
     if k == 1:
